@@ -81,6 +81,8 @@ type OffRes struct {
 	Digest string `json:"digest"` // digest of the returned value
 	Value  string `json:"value,omitempty"`
 	Err    string `json:"err,omitempty"`
+	// Aux: dispatch: "<session block height of the returned session>|<app public key>|<chain>"
+	Aux string `json:"aux,omitempty"`
 	// DigestsBefore/After: raw store digests around the operation (only when requested by the executor's Audit flag)
 	Changed []string `json:"changed,omitempty"`
 }
@@ -181,6 +183,7 @@ func (e *Executor) offchain(op MidOp) {
 				}
 				res.Value = strings.Join(nodes, ",")
 				res.Digest = dig(nodes)
+				res.Aux = fmt.Sprintf("%d|%s|%s", r.Session.SessionHeader.SessionBlockHeight, op.Arg, op.Arg2)
 			}
 		case "relay", "relayburst", "evidence", "autotx", "sleep":
 			e.relayOp(op, res)
